@@ -225,7 +225,7 @@ def generate(seed, tier, cfg):
             at = f.choice((0, 0, 1, 2, 3, 5, 8))
             err = {"F1": f.choice((28, 13, 2)), "F2": f.choice((28, 5)), "F3": 28, "F4": 0, "F5": f.choice((2, 13)), "F6": 5}[kind]
             faults.append({"kind": kind, "path": "*", "at": at if kind in ("F2", "F4", "F6") else 0, "errno": err, "op_index": oi, "frac": (round(f.random(), 3) if kind in ("F2", "F4", "F6") and f.random() < 0.5 else None)})
-    return {"workload": asc, "ops": ops, "faults": faults, "knobs": {"mode": mode, "policy": policy, "min_ppq": min_ppq, "velocity": velocity, "chunk": k.choice((1, 7, 16, 0, 0)), "bufsize": k.choice((-1, 16, 512)), "late_structure": k.random() < 0.3, "late_divs": k.random() < 0.3}}
+    return {"workload": asc, "ops": ops, "faults": faults, "knobs": {"mode": mode, "policy": policy, "min_ppq": min_ppq, "velocity": velocity, "chunk": k.choice((1, 7, 16, 0, 0)), "bufsize": k.choice((-1, 16, 512)), "late_structure": k.random() < 0.3, "late_divs": k.random() < 0.3, "quantize_one_tick": k.random() < 0.25}}
 
 
 # ----------------------------------------------------------------------------
@@ -365,6 +365,13 @@ def check_bytes(res, data, asc, exp, kn):
         if ks_got != ks_want:
             res.violation("M3-positions", "save", "key signatures in the file %s, expected %s" % (sorted((str(a), b, c) for a, b, c in ks_got), sorted((str(a), b, c) for a, b, c in ks_want)), site="key_signature")
     return smf
+
+
+def import_opts(kn):
+    """non-default importer options that must not change what is read: a quantisation unit of one tick"""
+    if kn.get("quantize_one_tick"):
+        return {"quantization_unit": 1}
+    return {}
 
 
 def check_import(res, loaded, smf, exp, kn, asc, route, grouping=True):
@@ -529,11 +536,11 @@ def execute(case, keep_log=False):
                 route = op["route"]
                 try:
                     if route == "path":
-                        loaded = with_timeout(20, load_score_midi, path, part_voice_assign_mode=kn["mode"])
+                        loaded = with_timeout(20, load_score_midi, path, part_voice_assign_mode=kn["mode"], **import_opts(kn))
                     elif route == "midifile":
                         res.probe("midifile_object_route")
                         mf = mido.MidiFile(path)
-                        loaded = with_timeout(20, load_score_midi, mf, part_voice_assign_mode=kn["mode"])
+                        loaded = with_timeout(20, load_score_midi, mf, part_voice_assign_mode=kn["mode"], **import_opts(kn))
                     else:
                         res.probe("load_score_route")
                         loaded = with_timeout(20, pt.load_score, path)
